@@ -43,14 +43,16 @@ type regEntry struct {
 }
 
 type worldA struct {
-	r     *core.Run
-	cid   string
-	s     *pkt.Sim
-	infra *core.Account
-	tss   *core.Account
-	pool  []*core.Account
-	model map[string]map[string]regEntry // node name -> signer bech32 -> entry
-	tssQ  uint64
+	r       *core.Run
+	cid     string
+	s       *pkt.Sim
+	infra   *core.Account
+	tss     *core.Account
+	noRekey bool
+	tssOf   map[string]*core.Account // per chain: the account its TSS client currently names (governance can re-key it)
+	pool    []*core.Account
+	model   map[string]map[string]regEntry // node name -> signer bech32 -> entry
+	tssQ    uint64
 }
 
 func (w *worldA) authorised(n *core.Node, signer *core.Account, chain string) (string, bool) {
@@ -91,7 +93,7 @@ func runRegistry(r *core.Run, cid string, K int) {
 		r.Inconclusive("%s: world construction failed: %v", cid, err)
 		return
 	}
-	w := &worldA{r: r, cid: cid, s: s, model: map[string]map[string]regEntry{}}
+	w := &worldA{r: r, cid: cid, s: s, model: map[string]map[string]regEntry{}, tssOf: map[string]*core.Account{}}
 	// relayer 0 is the harness's own infrastructure relayer (already registered for every chain by NewWorld);
 	// the registry under test is rewritten for everybody else
 	w.infra = s.W.Relayers[0]
@@ -111,6 +113,7 @@ func runRegistry(r *core.Run, cid string, K int) {
 			w.model[n.Name][rel.Bech32()] = regEntry{chains, addrs}
 		}
 		// a TSS-secured counterparty on every chain
+		w.tssOf[n.Name] = w.tss
 		cs := &tsstypes.ClientState{TssAddress: w.tss.Bech32()}
 		if err := n.App.XIBCKeeper.ClientKeeper.CreateClient(n.Ctx(), tssChain, cs, &tsstypes.ConsensusState{}); err != nil {
 			r.Inconclusive("%s: cannot create TSS client: %v", cid, err)
@@ -374,28 +377,75 @@ func (w *worldA) attemptTM(n, x *core.Node, signer *core.Account, kind string) {
 }
 
 // tssProof chooses what the (for TSS clients meaningless) proof field carries: an attacker controls it.
-func (w *worldA) tssProof(signer *core.Account) ([]byte, string) {
+func (w *worldA) tssProof(n *core.Node, signer *core.Account) ([]byte, string) {
 	switch w.s.Rng.Intn(4) {
 	case 0:
 		return []byte{}, "empty"
 	case 1:
-		return []byte(w.tss.Bech32()), "tss-address-string"
+		return []byte(w.tssOf[n.Name].Bech32()), "tss-address-string"
 	case 2:
 		return []byte(signer.Bech32()), "signer-address-string"
 	}
 	return []byte("ignored"), "junk"
 }
 
+// rekeyTSS replaces, through a governance upgrade proposal, the account the TSS client on n names. From then on only
+// the new account may drive that client; the replaced one is an ordinary account again.
+func (w *worldA) rekeyTSS(n *core.Node) {
+	s := w.s
+	cands := []*core.Account{s.W.Relayers[1], s.W.Relayers[2], s.W.Relayers[3]}
+	next := cands[s.Rng.Intn(len(cands))]
+	if next == w.tssOf[n.Name] {
+		return
+	}
+	p, err := clienttypes.NewUpgradeClientProposal("t", "d", tssChain, &tsstypes.ClientState{TssAddress: next.Bech32()}, &tsstypes.ConsensusState{})
+	if err != nil || p.ValidateBasic() != nil {
+		return
+	}
+	handler := xibcclient.NewClientProposalHandler(n.App.XIBCKeeper.ClientKeeper)
+	cctx, write := n.Ctx().CacheContext()
+	if err := handler(cctx, p); err != nil {
+		w.r.Count("tss_rekey_refused", 1)
+		return
+	}
+	write()
+	prev := w.tssOf[n.Name]
+	w.tssOf[n.Name] = next
+	w.r.Count("tss_rekeyed_by_upgrade_proposal", 1)
+	s.W.Roll(n)
+	// both the replaced and the new account are (re-)registered as relayers for the TSS chain, so that what decides the
+	// probes below is the TSS account check alone
+	rh := xibcclient.NewClientProposalHandler(n.App.XIBCKeeper.ClientKeeper)
+	for _, a := range []*core.Account{prev, next} {
+		chains, addrs := []string{tssChain}, []string{a.Bech32()}
+		rp := clienttypes.NewRegisterRelayerProposal("t", "d", a.Bech32(), chains, addrs)
+		c2, w2 := n.Ctx().CacheContext()
+		if rp.ValidateBasic() == nil && rh(c2, rp) == nil {
+			w2()
+			w.model[n.Name][a.Bech32()] = regEntry{chains, addrs}
+		}
+	}
+	w.noRekey = true
+	w.attemptTSS(n, prev, "update")
+	w.attemptTSS(n, prev, "recv")
+	w.attemptTSS(n, prev, "ack")
+	w.attemptTSS(n, next, "recv")
+	w.noRekey = false
+}
+
 func (w *worldA) attemptTSS(n *core.Node, signer *core.Account, kind string) {
 	s := w.s
-	isTSS := signer == w.tss
+	if !w.noRekey && s.Rng.Intn(6) == 0 {
+		w.rekeyTSS(n)
+	}
+	isTSS := signer == w.tssOf[n.Name]
 	exp := 0
 	if !isTSS {
 		exp = -1
 	}
 	switch kind {
 	case "update":
-		hdr := &tsstypes.Header{TssAddress: w.tss.Bech32()}
+		hdr := &tsstypes.Header{TssAddress: w.tssOf[n.Name].Bech32()}
 		if s.Rng.Intn(2) == 0 && !isTSS {
 			hdr.TssAddress = signer.Bech32() // try to take the client over
 		}
@@ -418,7 +468,7 @@ func (w *worldA) attemptTSS(n *core.Node, signer *core.Account, kind string) {
 		_ = tok
 		p := packettypes.Packet{SrcChain: tssChain, DstChain: n.Name, Sequence: w.tssQ, Sender: "0xsender", TransferData: tdb, CallData: []byte{}, CallbackAddress: "", FeeOption: 0}
 		bz, _ := p.ABIPack()
-		proof, pv := w.tssProof(signer)
+		proof, pv := w.tssProof(n, signer)
 		msg := packettypes.NewMsgRecvPacket(bz, proof, clienttypes.NewHeight(0, 1), signer.Acc)
 		o := s.Deliver(n, signer, fmt.Sprintf("tss-recv #%d proof=%s", w.tssQ, pv), msg)
 		w.judge(n, signer, tssChain, kind, o, exp, "/proof="+pv)
@@ -434,7 +484,7 @@ func (w *worldA) attemptTSS(n *core.Node, signer *core.Account, kind string) {
 		p := ps[0]
 		a := packettypes.NewAcknowledgement(0, []byte{}, "", signer.Bech32(), 0)
 		ab, _ := a.ABIPack()
-		proof, pv := w.tssProof(signer)
+		proof, pv := w.tssProof(n, signer)
 		msg := packettypes.NewMsgAcknowledgement(p.Bytes, ab, proof, clienttypes.NewHeight(0, 1), signer.Acc)
 		o := s.Deliver(n, signer, "tss-ack "+p.Key()+" proof="+pv, msg)
 		w.judge(n, signer, tssChain, kind, o, exp, "/proof="+pv)
